@@ -4,8 +4,8 @@ open Model
 open Sx
 
 let sres_out = function
-  | SOk (n, f) -> L [A "ok"; of_z n; of_cnf f]
-  | SValueErr -> L [A "valueerror"]
+  | TOk (n, f) -> L [A "ok"; of_z n; of_cnf f]
+  | TValueErr -> L [A "valueerror"]
 let pair_out (n, f) = L [A "ok"; of_z n; of_cnf f]
 let scop_of = function
   | "<=" -> CLe | ">=" -> CGe | "<" -> CLt | ">" -> CGt | "==" -> CEq | "!=" -> CNe
